@@ -870,6 +870,11 @@ hwloc__xml_import_object(hwloc_topology_t topology,
 	      state->global->msgprefix, hwloc_obj_type_string(obj->type), obj->os_index);
     goto error_with_object;
   }
+  /* complete sets are used unconditionally below and by the core: default them to the non-complete ones */
+  if (obj->cpuset && !obj->complete_cpuset)
+    obj->complete_cpuset = hwloc_bitmap_dup(obj->cpuset);
+  if (obj->nodeset && !obj->complete_nodeset)
+    obj->complete_nodeset = hwloc_bitmap_dup(obj->nodeset);
   if ((obj->cpuset || obj->nodeset) && hwloc__obj_type_is_special(obj->type)) {
     if (hwloc__xml_verbose())
       fprintf(stderr, "%s: invalid special object %s with cpuset or nodeset\n",
